@@ -63,7 +63,7 @@ def run(rep, tier, seed, replay):
         if ml is None and len(e) > 2000:
             # too deep for the model driver's own stack: the nesting model (Re.nest, limit 250) is evaluated by hand:
             # 2 levels per nested alternation, 3 per nested repetition or two-branch alternation
-            depth = max((len(m0.group(0)) for m0 in re.finditer(r"[{<]+|(?:\{a,)+", e)), default=0)
+            depth = max((len(m0.group(0)) for m0 in re.finditer(r"(?:\{a,)+|[{<]+", e)), default=0)
             depth = depth // 3 if e.startswith("{a,") else depth
             mnew_panic = depth >= 125
         if new.startswith("panic"):
